@@ -97,6 +97,13 @@ pub fn where_holds_other(name: &str, case: &crate::anycase::AnyCase, _v: &Violat
     match (name, case) {
         ("any", _) => true,
         ("cardinality-network", AnyCase::Cli(c)) => c.args.iter().any(|a| a == "cardinality-network"),
+        // `var {..}: x = y` / `var ..: x = y` with y declared over a set: the initialiser of a
+        // set-domain declaration is dropped by the parser, and an alias of a set-domain variable
+        // takes that variable's own domain
+        ("fzn-set-domain-alias", AnyCase::Cli(c)) => match &c.kind {
+            crate::cli::CliKind::Fzn(m) => m.vars.iter().any(|v| v.alias.is_some_and(|t| v.decl == 1 || m.vars[t].decl == 1)),
+            _ => false,
+        },
         // !(x >= i64::MIN) and !(x <= i64::MAX) are not representable
         ("atomic-at-i64-extreme", AnyCase::Drcp(c)) => c.atomics.iter().any(|a| (a.cmp == 0 && a.value == i64::MIN) || (a.cmp == 1 && a.value == i64::MAX)),
         _ => false,
